@@ -255,6 +255,19 @@ def inspect_frame(frame: FrameType) -> FrameDetails:
                 ]
                 object_from_id_map = {id(obj): obj for obj in gc.get_referents(frame)}
                 details.stack = [object_from_id_map.get(value) for value in stack]
+                # Nothing above follows a pointer, but a suspended frame can
+                # be resumed at any of the calls that were made (a generator
+                # that the thread we're looking at is iterating), and then
+                # the blocks are those of one moment and the stack that of
+                # another.
+                if not (f_lasti.value == snapshot.f_lasti):
+                    raise InconsistentSnapshot
+                if not (f_iblock.value == snapshot.f_iblock):
+                    raise InconsistentSnapshot
+                if not (f_state.value == snapshot.f_state):
+                    raise InconsistentSnapshot
+                if not (frame_raw.f_stacktop - id(frame) == stack_top_offset):
+                    raise InconsistentSnapshot
 
         except AssertionError:
             if (
